@@ -170,5 +170,7 @@ pub fn run(p: &Params) -> Run {
     }
     let _ = std::fs::remove_file(jpath);
     run.notes.push("statements (select, DISTINCT, INNER/OUTER JOIN with fan-out, aggregates) generated without LIMIT; each run without LIMIT and with LIMIT n for n in 0..rows+2 over 0-11 lines split into 1-4 files (empty files, NULL-only rows, noise lines, every 23rd case an invalid UTF-8 line); oracle on the implementation: records(LIMIT n) = first n records(no LIMIT), total_lines <= line of the n-th row (per-line emission from the engine-level unlimited run), aggregates read everything".to_owned());
+    // the end-to-end stream: the same property seen from raw texts and raw file bytes (`e2e.rs`, Lean `Pipeline.runText`)
+    crate::e2e::stream(&mut run, &mut Rng::new(p.seed ^ 0xe2e07), p.n(250, 3000), "limit");
     run
 }
